@@ -213,6 +213,9 @@ def main(argv=None):
     print(f"[{prop}] tier={args.tier} configs={len(results)} paths={tot('paths')} queries={tot('queries')} "
           f"obligations={tot('obligations')} discharged={tot('discharged')} inconclusive={n_inconcl} "
           f"solver={ev['coverage']['solver_time_s']}s wall={wall:.1f}s")
+    if os.environ.get("VERIF_VERBOSE"):
+        for r in sorted(results, key=lambda r: -r["wall_s"])[:6]:
+            print(f"   slow: {r['wall_s']:.1f}s paths={r['paths']} queries={r['queries']} {r['cfg']}")
     for it in inconcl[:8]:
         print(f"INCONCLUSIVE {it['cfg']}: {it['items'][:2]} (n={it['n']})")
     for fid, k in known_confirmed.items():
